@@ -1,0 +1,107 @@
+"""Verification trace hooks (only active when SKMATTER_VERIF=1).
+
+When the environment variable SKMATTER_VERIF is "1" the greedy selectors append one JSON
+record per action (begin of a fit, every greedy decision, end of a fit) to the file
+named by SKMATTER_VERIF_TRACE_FILE.  The records project the selector's state to plain
+integers so that an external TLA+ trace specification can validate the execution.  With
+the variable unset nothing in this module is imported or executed.
+"""
+
+import itertools
+import json
+import os
+import threading
+
+import numpy as np
+
+_UNIT = 1000000
+_INF = 2000000000
+_lock = threading.Lock()
+_seq = itertools.count(1)
+_ids = {}
+
+
+def _q(values):
+    out = []
+    for v in np.asarray(values, dtype=float).ravel():
+        if not np.isfinite(v):
+            out.append(_INF if v > 0 else -_INF)
+        else:
+            out.append(int(min(max(round(v * _UNIT), -_INF), _INF)))
+    return out
+
+
+def _oid(obj):
+    key = id(obj)
+    if key not in _ids:
+        _ids[key] = len(_ids) + 1
+    return "%d-%d" % (os.getpid(), _ids[key])
+
+
+def _matching(block, ref, axis):
+    out = []
+    for i in range(block.shape[axis]):
+        col = np.take(block, i, axis=axis)
+        out.append(
+            [
+                int(j) + 1
+                for j in range(ref.shape[axis])
+                if np.array_equal(col, np.take(ref, j, axis=axis))
+            ]
+        )
+    return out
+
+
+def emit(obj, action, **fields):
+    path = os.environ.get("SKMATTER_VERIF_TRACE_FILE")
+    if not path:
+        return
+    rec = {"obj": _oid(obj), "cls": type(obj).__module__ + "." + type(obj).__name__}
+    rec["a"] = action
+    rec.update(fields)
+    with _lock:
+        rec["seq"] = next(_seq)
+        with open(path, "a") as fh:
+            fh.write(json.dumps(rec) + "\n")
+
+
+def begin(obj, X, warm_start, n_iterations):
+    emit(
+        obj,
+        "begin",
+        n=int(X.shape[obj._axis]),
+        axis=int(obj._axis),
+        nts=repr(obj.n_to_select),
+        resolved=int(n_iterations),
+        thr=None if obj.score_threshold is None else float(obj.score_threshold),
+        thr_type=str(obj.score_threshold_type),
+        warm=bool(warm_start),
+        nsel=int(getattr(obj, "n_selected_", 0)),
+        idx=[int(i) + 1 for i in np.asarray(getattr(obj, "selected_idx_", []))][
+            : int(getattr(obj, "n_selected_", 0))
+        ],
+    )
+
+
+def step(obj, scores, choice):
+    emit(obj, "step", c=0 if choice is None else int(choice) + 1, score=_q(scores))
+
+
+def post(obj, X, y, stopped):
+    axis = obj._axis
+    rec = dict(
+        nsel=int(obj.n_selected_),
+        idx=[int(i) + 1 for i in obj.selected_idx_],
+        support=[bool(b) for b in obj.support_],
+        xsel=_matching(np.asarray(obj.X_selected_), np.asarray(X, dtype=float), axis),
+        stopped=bool(stopped),
+        hasy=False,
+        ysel=[],
+    )
+    if axis == 0 and y is not None and hasattr(obj, "y_selected_"):
+        yy = np.asarray(y, dtype=float).reshape(len(y), -1)
+        rec["hasy"] = True
+        rec["ysel"] = _matching(
+            np.asarray(obj.y_selected_).reshape(-1, yy.shape[1]), yy, 0
+        )
+    emit(obj, "post", **rec)
